@@ -349,6 +349,12 @@ def _walk(ch, tr, tm, orc, p_fail_num, fault_horizon, aim, k_mode, rollback, exp
         except ValueError:
             twin = None
     while not tm.final_time_reached():
+        if orc.n_attempts % 5 == 3:
+            try:
+                repr(tm)  # printing the manager in between is the most innocent thing a caller can do
+                str(tm)
+            except Exception:  # noqa: BLE001
+                pass
         if twin is not None and not twin.final_time_reached():
             twin.increase_time()
             twin.increase_time_index()
